@@ -24,6 +24,7 @@ pub fn spec() -> PropSpec {
         ],
         workers: 16,
         also_nochk: false,
+        fuzz_target: None,
         quick_budget_s: 900,
         thorough_budget_s: 5400,
         min_nontrivial_quick: 5_000,
